@@ -27,7 +27,7 @@ pub fn c02() -> Check {
     Check {
         property: "C02",
         level: "exploration",
-        scenarios: vec![Box::new(SqlScenario { name: "c02-sql", family: Family::Any, mode: Mode::Exact, need_reference: false, weight: 1, dynamic_filters: false })],
+        scenarios: vec![Box::new(SqlScenario { name: "c02-sql", family: Family::Any, mode: Mode::Exact, need_reference: false, weight: 1, dynamic_filters: false, nlj_focus: false })],
         cases_quick: 16_000,
         cases_thorough: 400_000,
         rule: "runs: one generated SQL query (joins of every type, semi/anti/NOT IN, nested-loop, cross, GROUP BY, DISTINCT, ORDER BY/LIMIT, UNION [ALL], window functions, IN/scalar subqueries, join+aggregate) over two generated tables split into 1-4 scripted partitions, under a random semantic-neutral configuration (target_partitions 1-8, batch_size 1-8192, join/aggregate/sort/window repartitioning switches, hash-join thresholds, partial-aggregation skipping, dynamic filters, sort pushdown, coalescing, ...), 1-3 copies of the query running concurrently in one session, one scheduler policy per run; result compared with an independent reference evaluator where one exists, otherwise with the baseline configuration (single partition MemTable, defaults). distinct = distinct poll traces; non-trivial = a scheduling decision had >= 2 runnable tasks or a refusal/fault fired",
@@ -40,7 +40,7 @@ fn exact(property: &'static str, name: &'static str, family: Family, rule: &'sta
     Check {
         property,
         level: "exploration",
-        scenarios: vec![Box::new(SqlScenario { name, family, mode: Mode::Exact, need_reference: true, weight: 1, dynamic_filters: false })],
+        scenarios: vec![Box::new(SqlScenario { name, family, mode: Mode::Exact, need_reference: true, weight: 1, dynamic_filters: false, nlj_focus: false })],
         cases_quick: 16_000,
         cases_thorough: 400_000,
         rule,
@@ -64,10 +64,11 @@ pub fn c18() -> Check {
         property: "C18",
         level: "exploration",
         scenarios: vec![
-            Box::new(SqlScenario { name: "c18-sorts", family: Family::Sort, mode: Mode::Pressure, need_reference: true, weight: 2, dynamic_filters: false }),
-            Box::new(SqlScenario { name: "c18-aggregates", family: Family::Agg, mode: Mode::Pressure, need_reference: true, weight: 2, dynamic_filters: false }),
-            Box::new(SqlScenario { name: "c18-joins", family: Family::Join, mode: Mode::Pressure, need_reference: true, weight: 2, dynamic_filters: false }),
-            Box::new(SqlScenario { name: "c18-any", family: Family::Any, mode: Mode::Pressure, need_reference: false, weight: 1, dynamic_filters: false }),
+            Box::new(SqlScenario { name: "c18-sorts", family: Family::Sort, mode: Mode::Pressure, need_reference: true, weight: 2, dynamic_filters: false, nlj_focus: false }),
+            Box::new(SqlScenario { name: "c18-aggregates", family: Family::Agg, mode: Mode::Pressure, need_reference: true, weight: 2, dynamic_filters: false, nlj_focus: false }),
+            Box::new(SqlScenario { name: "c18-joins", family: Family::Join, mode: Mode::Pressure, need_reference: true, weight: 2, dynamic_filters: false, nlj_focus: false }),
+            Box::new(SqlScenario { name: "c18-any", family: Family::Any, mode: Mode::Pressure, need_reference: false, weight: 1, dynamic_filters: false, nlj_focus: false }),
+            Box::new(SqlScenario { name: "c18-nlj", family: Family::Join, mode: Mode::Pressure, need_reference: true, weight: 1, dynamic_filters: false, nlj_focus: true }),
         ],
         cases_quick: 16_000,
         cases_thorough: 400_000,
@@ -81,7 +82,7 @@ pub fn c19() -> Check {
     Check {
         property: "C19",
         level: "fault_enumeration",
-        scenarios: vec![Box::new(SqlScenario { name: "c19-drop", family: Family::Any, mode: Mode::Drop, need_reference: false, weight: 1, dynamic_filters: false })],
+        scenarios: vec![Box::new(SqlScenario { name: "c19-drop", family: Family::Any, mode: Mode::Drop, need_reference: false, weight: 1, dynamic_filters: false, nlj_focus: false })],
         cases_quick: 16_000,
         cases_thorough: 400_000,
         rule: "runs: generated queries executed through the real planner, whose output stream is dropped before the first poll or after 1..3 batches (drop point swept by the generator), merged stream or per-partition consumption; afterwards the simulator runs the system to quiescence and checks: no live background task, every input stream released, pool 0 bytes, no spill file. distinct/non-trivial as for C02",
@@ -95,7 +96,7 @@ pub fn c20() -> Check {
         property: "C20",
         level: "fault_enumeration",
         scenarios: vec![
-            Box::new(SqlScenario { name: "c20-faults", family: Family::Any, mode: Mode::Fault, need_reference: false, weight: 2, dynamic_filters: false }),
+            Box::new(SqlScenario { name: "c20-faults", family: Family::Any, mode: Mode::Fault, need_reference: false, weight: 2, dynamic_filters: false, nlj_focus: false }),
             Box::new(crate::c10::RepartitionFaults),
         ],
         cases_quick: 16_000,
@@ -111,9 +112,9 @@ pub fn c31() -> Check {
         property: "C31",
         level: "exploration",
         scenarios: vec![
-            Box::new(SqlScenario { name: "c31-joins", family: Family::Join, mode: Mode::Exact, need_reference: true, weight: 3, dynamic_filters: true }),
-            Box::new(SqlScenario { name: "c31-topk", family: Family::Sort, mode: Mode::Exact, need_reference: true, weight: 2, dynamic_filters: true }),
-            Box::new(SqlScenario { name: "c31-aggregates", family: Family::Agg, mode: Mode::Exact, need_reference: true, weight: 1, dynamic_filters: true }),
+            Box::new(SqlScenario { name: "c31-joins", family: Family::Join, mode: Mode::Exact, need_reference: true, weight: 3, dynamic_filters: true, nlj_focus: false }),
+            Box::new(SqlScenario { name: "c31-topk", family: Family::Sort, mode: Mode::Exact, need_reference: true, weight: 2, dynamic_filters: true, nlj_focus: false }),
+            Box::new(SqlScenario { name: "c31-aggregates", family: Family::Agg, mode: Mode::Exact, need_reference: true, weight: 1, dynamic_filters: true, nlj_focus: false }),
         ],
         cases_quick: 16_000,
         cases_thorough: 400_000,
